@@ -51,4 +51,10 @@ CHECKS = {
   "note": "Partial: EnsembleError nesting has no theorem (oracle + correspondence only). Trusted: Coq kernel + vm_compute; the hand-written model; traceback.format_exception prints str(__cause__); pickling of the exception classes themselves; a process hop is modelled by pickle.dumps/loads. No axioms.",
   "design_ref": "DESIGN.md section 5 C15",
  },
+ "C18": {
+  "technique": "Coq proof of the record codec round trip (all payloads, ids, lengths) + byte-exact differential correspondence with write_record/read_record + sampled loopback runs for multiplexing and the pipe",
+  "text": "Theorems: for every payload (any bytes and length), request id and encoder name without whitespace and any following bytes, read_record(write_record(...) ++ rest) returns exactly that record and leaves rest; a concatenation of any number of records decodes to the same list; the decimal length field round-trips for every length. Tie: the real write_record output is compared byte for byte with the model and the real read_record, fed through an asyncio.StreamReader in random chunks, with the model's decoder, inside Coq. The multiplexing clause (each response reaches the request that caused it over 1-3 connections, stream preserves order) and the pipe transport are exercised by sampled real loopback runs with reordering latencies, failing handlers and 70 kB payloads, checked by an oracle.",
+  "note": "Partial: no theorem for the multiplexing/pipe clauses (exploration only). Trusted: Coq kernel + vm_compute, stdlib DecimalNat lemma, the hand-written model, asyncio streams, pickle/utf8. No axioms.",
+  "design_ref": "DESIGN.md section 5 C18",
+ },
 }
